@@ -310,7 +310,7 @@ func ParentMain(args []string) int {
 
 	n := p.Cases(tier)
 	nrace := p.RaceCases(tier)
-	if _, err := os.Stat(selfRace); err != nil {
+	if _, err := os.Stat(selfRace); err != nil || os.Getenv("VERIF_NORACE") == "1" {
 		nrace = 0
 	}
 	par := runtime.NumCPU()
